@@ -5,6 +5,7 @@ var engineKind = map[string]string{
 	"sync": "real compiled spinlock under a seeded one-at-a-time scheduler (goroutine tasks with a baton, yieldFn seam, inserted statement yields) + instruction-level interpreter of the current spinlock_amd64.s with single-instruction interleaving",
 	"pmm":  "simulated boot: generated multiboot memory map -> real early allocator -> real pmm.Init -> real bitmap allocator; sequential multi-caller histories against a frame-set reference model, injected reservation/mapping failures, natural early-boot OOM",
 	"vmm":  "software MMU over a fixed-address host arena: simulated CR3, TLB invalidation log, seeded failing frame allocator, independent page-table walker; real Map/Unmap/Translate/regions/PageDirectoryTable/vmm.Init/page-fault handler; harness plays bootloader (ELF sections tag) and CPU (page faults)",
+	"tree": "real aml.ObjectTree driven by seeded edit/lookup histories against a reference tree and reference resolver (single party, no hardware)",
 	"pmmc": "same simulated boot, bitmap_allocator.go rebuilt with go/ast-inserted yields; 2-16 goroutine tasks under the seeded scheduler, real spinlock; ownership invariant, conservation at quiescence, exact deadlock detection, porcupine linearizability of recorded histories",
 }
 
@@ -57,4 +58,9 @@ func init() {
 		"Trusted: arithmetic of the model (unbounded via explicit overflow checks). Map seam is a recorder here.",
 		"deterministic simulation with fault injection: seeded request histories, grant-list reference model, failing map seam",
 		"DESIGN.md 5.3.5")
+	t("C13",
+		"Seeded edit/lookup histories with stepwise refinement of a reference tree (every link, both directions, after every edit) and a reference resolver written from the statement. Degenerate fit for the family (single party, no schedule/fault), stated as such.",
+		"Trusted: the reference tree and resolver. Lookups with duplicate sibling names and malformed expressions are only required not to crash.",
+		"deterministic simulation (degenerate: sequential seeded histories) with stepwise reference-model refinement",
+		"DESIGN.md 5.4")
 }
